@@ -1771,13 +1771,19 @@ func cliStream(n int, bin string) {
 			}
 			args = append(args, "-p", path)
 		}
-		if chance(0.015) {
+		if chance(0.015) || i == 11 || i == 57 {
 			// a great many patch files that cannot be decoded (an exit status is eight bits wide)
 			bad := filepath.Join(dir, fmt.Sprintf("bad%d.json", i))
 			content := []byte(pick("{", "[1", "nope", `[{"op":"add"}]`))
 			os.WriteFile(bad, content, 0o644)
 			args, files = nil, nil
-			for j := 0; j < int(pick64(255, 256, 257, 512)); j++ {
+			nbad := int(pick64(255, 256, 257, 512))
+			if i == 11 {
+				nbad = 256
+			} else if i == 57 {
+				nbad = 512
+			}
+			for j := 0; j < nbad; j++ {
 				args = append(args, "-p", bad)
 				files = append(files, "file:"+hx(content))
 			}
